@@ -583,6 +583,44 @@ def gen_exact(rng):
     return sc
 
 
+def gen_eps(rng):
+    """exact arithmetic mode with samples of 16-17 significant digits (two-scale ticks, see scenario.frac_of): a
+    tick A * 10^4 + B is the engine value A * 0.1 + B * 10^-16.  Only floats whose shortest repr is exactly that
+    decimal are used, so `Decimal(str(sample))` is the intended value and any shortcut that goes through fewer
+    digits or through the binary expansion leaves the lattice or shifts a date"""
+    from decimal import Decimal
+    from fractions import Fraction
+    from harness.scenario import EPS_M
+    base = rng.choice([gen_core1, gen_tandem, gen_prio, gen_renege, lambda r: gen_prio(r, preempt=True)])
+    sc = base(rng)
+    sc["exact"] = rng.choice([20, 28, 50])
+    sc["dec"] = 1
+    sc["eps"] = 16
+
+    def fine(a):
+        """a tick whose coarse part is a (units of 0.1) and whose float round-trips through str()"""
+        if a == 0:
+            return 0
+        for _ in range(50):
+            b = rng.randint(1, 7)
+            x = Fraction(a, 10) + Fraction(b, 10 ** 16)
+            if Fraction(Decimal(repr(float(x)))) == x:
+                return a * EPS_M + b
+        return a * EPS_M
+
+    def conv(vals):
+        return sorted(set(fine(max(0, v * rng.choice([3, 7, 11]) + rng.choice([0, 1, 3]))) for v in vals)) or [EPS_M]
+    N, K = sc["N"], sc["K"]
+    for key in ("arrS", "svcS", "patS"):
+        if key in sc:
+            for n in range(N):
+                for k in range(K):
+                    if sc[key][n][k]:
+                        sc[key][n][k] = conv(sc[key][n][k])
+    sc["T"] = sc["T"] * 8 * EPS_M
+    return sc
+
+
 def gen_ps(rng):
     """processor-sharing nodes (no blocking into/out of them, one priority class)"""
     N = rng.choice([1, 1, 2])
@@ -830,6 +868,7 @@ def gen_stopcount(rng):
 
 
 FAMILIES = {
+    "eps": gen_eps,
     "stopcount": gen_stopcount,
     "trk": gen_trk,
     "dead3": gen_dead3,
